@@ -140,6 +140,68 @@ func runC13(c *eng.Ctx) {
 		c.Guard("MONO-setmax", "raise-only", fn, eng.Entry(fn), sts, eng.PassEdges(fn, raise), "the counter is replaced only when the reported key is not below it")
 	}
 
+	// the local window [currentSeqId, maxSeqId) of the etcd sequencer only ever covers ids this master reserved in etcd:
+	// whenever the upper bound is replaced, the lower bound is replaced in the same step by a value derived from the same
+	// reservation (lifting the upper bound alone would add ids other masters reserved to the window)
+	nWin := 0
+	for _, fn := range P.SrcFuncs("weed/sequence") {
+		if strings.HasPrefix(fn.Name(), "NewEtcdSequencer") {
+			continue
+		}
+		for i, in := range eng.Find(fn, eng.StoreToField("EtcdSequencer.maxSeqId")) {
+			st := in.(*ssa.Store)
+			ok := false
+			for _, o := range st.Block().Instrs {
+				if os, isSt := o.(*ssa.Store); isSt && eng.IsField(os.Addr, "EtcdSequencer.currentSeqId") && (os.Val == st.Val || eng.MentionsValue(os.Val, st.Val)) {
+					ok = true
+				}
+			}
+			nWin++
+			c.Touch(fn)
+			c.Ob("GUARD-refill", fmt.Sprintf("%s window-replaced-as-a-whole#%d", eng.FuncName(fn), i), ok, st.Pos(),
+				"the upper bound of the local id window is replaced together with the lower bound, both from the same reservation")
+		}
+	}
+	if nWin < 2 {
+		c.Undecided("GUARD-refill", "window-replaced-as-a-whole", token.NoPos, fmt.Sprintf("only %d updates of EtcdSequencer.maxSeqId found (expected 2)", nWin))
+	}
+
+	// volume ids: NextVolumeId (read the maximum, add one, commit through raft) is serialised only by the accessLock of
+	// the VolumeGrowth value it is called through, so all growth of a master must go through one shared value
+	{
+		nG := 0
+		for _, fn := range P.AllSrcFuncs() {
+			for i, in := range eng.Find(fn, eng.CallTo("topology.VolumeGrowth).GrowByCountAndType", "topology.VolumeGrowth).AutomaticGrowByType")) {
+				if fn.Pkg != nil && strings.HasSuffix(fn.Pkg.Pkg.Path(), "weed/topology") {
+					continue // the methods calling each other on their own receiver
+				}
+				nG++
+				c.Touch(fn)
+				recv := eng.RecvOf(in.(ssa.CallInstruction))
+				c.Ob("WHO-growth", fmt.Sprintf("%s shared-growth#%d", eng.FuncName(fn), i), recv != nil && eng.IsField(eng.Unwrap(recv), "MasterServer.vg"), in.Pos(),
+					"volumes are grown through the master's one VolumeGrowth (MasterServer.vg), whose lock serialises the reservation of the next volume id")
+			}
+		}
+		for _, cs := range P.CallersOf(P.Func("weed/topology", "NewDefaultVolumeGrowth")) {
+			fn := cs.Parent()
+			nG++
+			c.Touch(fn)
+			okStore := false
+			if v := cs.Value(); v != nil {
+				for _, r := range *v.Referrers() {
+					if st, ok := r.(*ssa.Store); ok && eng.IsField(st.Addr, "MasterServer.vg") {
+						okStore = true
+					}
+				}
+			}
+			c.Ob("WHO-growth", eng.FuncName(fn)+" creates-the-shared-growth", okStore && eng.NameIs(eng.FuncName(fn), "weed_server.NewMasterServer", "server.NewMasterServer"), cs.Pos(),
+				"the only VolumeGrowth of a master is the one created for MasterServer.vg at start-up")
+		}
+		if nG < 3 {
+			c.Undecided("WHO-growth", "discovery", token.NoPos, fmt.Sprintf("only %d growth sites found (expected 3)", nG))
+		}
+	}
+
 	c.CheckLockPairs("PAIR-sequence", "weed/sequence", "MemorySequencer.sequenceLock", nil)
 	c.CheckLockPairs("PAIR-sequence", "weed/sequence", "EtcdSequencer.sequenceLock", nil)
 	c.Expect("PAIR-sequence", 4)
